@@ -170,9 +170,23 @@ PREDICATES = {
 }
 
 
+_LISTED = []
+
+
+def listed_predicates():
+    """ Predicates of the entries with status "known" (read once, read-only). """
+    if not _LISTED:
+        from verif import findings
+        _LISTED.append({e.get("predicate") for e in findings.load(ID)
+                        if e.get("status") == "known"})
+    return _LISTED[0]
+
+
 def report(ctx, monitor, **witness):
     w = {k: (v() if callable(v) else v) for k, v in witness.items()}
     for name, pred in PREDICATES.items():
+        if name not in listed_predicates():
+            continue          # only mechanisms still listed as known are capped
         try:
             hit = pred(monitor, w)
         except Exception:
